@@ -234,7 +234,9 @@ func (m *c25Monitor) observe(i int, st *stepRec, e *events) {
 		}
 		// the time clause is an "if and only if": with every other condition met, block time >= JailedUntil must suffice,
 		// whatever the local clock says
-		if inMid && mid.Jailed && hasInfo && authorized(t, st.Mid) && !mid.StakedTokens.LT(minHi) && !st.Time.Before(si.JailedUntil) && perNode[a] == 1 && !paramTx {
+		if inMid && mid.Jailed && hasInfo && authorized(t, st.Mid) && !mid.StakedTokens.LT(minHi) && !st.Time.Before(si.JailedUntil) && perNode[a] == 1 && !paramTx &&
+			t.Space == string(nodesTypes.DefaultCodespace) { // rejections by the ante handler (e.g. the signer cannot pay the fee) are not the unjail rules
+
 			sig := "C25/unjail/rejected-although-all-conditions-hold"
 			if t.Space == string(nodesTypes.DefaultCodespace) && t.Code == uint32(nodesTypes.CodeValidatorJailed) {
 				sig = "C25/unjail/outcome-depends-on-wall-clock"
